@@ -198,9 +198,9 @@ func buildPlan(id string, pinned map[string]string, tier string) *Plan {
 		p.Units = append(p.Units, Unit{Pkg: "./fiat-shamir", Tags: "", Groups: []string{"transcript"}})
 		p.Trusted = []string{"interface hash.Hash (assumed contracts): Write does not retain its argument, Sum(nil) returns a newly allocated slice",
 			"option functional-nested-slices: the rows of the list of bound values are functions of the row index (ComputeChallenge only reads them)", "escape analysis of the VC generator: an argument slice counts as retained when it (or a local object holding it) is stored into memory reachable after the call"}
-		p.NotCovered = []string{"the map of challenges is not modelled: that Bind appends its copy to the record of the named challenge, that the record ComputeChallenge reads is the one Bind wrote, and 'recomputing returns the same bytes' are not under contract (what ComputeChallenge hashes from the record it reads is)",
+		p.NotCovered = []string{"the map of challenges is not modelled as a store: what NewTranscript and Bind PUT into it is under contract (map updates are events cuts anchor on: the initial records have position i, nil bindings, nil value and are not computed; the record Bind stores back is the record it read with exactly one more binding, same position, not computed), but that the record ComputeChallenge reads is the one Bind wrote, the bytes of the binding stored, and 'recomputing returns the same bytes' are not under contract (what ComputeChallenge hashes from the record it reads is)",
 			"'errors leave the transcript unchanged' is only covered as far as the error paths return before any update (guards), not as a frame condition on the map"}
-		p.Note = "Bind: unknown / already computed challenges are refused with the documented errors, the bound slice is copied (the argument is never retained). ComputeChallenge: unknown challenge refused; a challenge at position > 0 is computed only if the previously computed challenge is its immediate predecessor; every returned slice is freshly allocated (not aliased with transcript state); the writes made to the hash before the digest is taken are, in order, the bytes of the name, the previous challenge's value when the position is not 0, and every bound value of the record in binding order (none skipped, none repeated), and the digest returned is the result of Sum(nil) taken after exactly these writes."
+		p.Note = "Bind: unknown / already computed challenges are refused with the documented errors, the bound slice is copied (the argument is never retained). ComputeChallenge: unknown challenge refused; a challenge at position > 0 is computed only if the previously computed challenge is its immediate predecessor; every returned slice is freshly allocated (not aliased with transcript state); the order pointer (t.previous) is left where it was by a recomputation and by every refused call, and advances to a record of the computed position otherwise; the writes made to the hash before the digest is taken are, in order, the bytes of the name, the previous challenge's value when the position is not 0, and every bound value of the record in binding order (none skipped, none repeated), and the digest returned is the result of Sum(nil) taken after exactly these writes."
 		return p
 	case "C16":
 		p := &Plan{ID: id}
@@ -319,7 +319,7 @@ func buildPlan(id string, pinned map[string]string, tier string) *Plan {
 			"group elements and pairing lines are values of uninterpreted sorts; MultiExp, JointScalarMultiplication, FromAffine, SubAssign, FromJacobian, PairingCheckFixedQ and deriveGamma are opaque calls whose arguments and results are captured at the call site",
 			"textbook fact (not proved here): f(X) - f(a) = q(X) (X - a) with q_j = f_{j+1} + a f_{j+2} + ... (the suffix Horner values that dividePolyByXminusA is proved to return)"}
 		p.NotCovered = []string{"completeness of Verify on honest proofs and soundness of the pairing equation: these need the pairing (C05) and MSM (C04) semantics, not under contract",
-			"BatchVerifyMultiPoints: guards, delegation to Verify for one proof, acceptance only on a successful pairing check and untouched inputs are under contract, the folded operands of its pairing check are not; BatchOpenSinglePoint, the benchmark branch of NewSRS (trapdoor -1), the MPC setup, serialisation of keys and proofs: not under contract",
+			"BatchVerifyMultiPoints: guards, delegation to Verify for one proof, acceptance only on a successful pairing check and untouched inputs are under contract, that every folding coefficient beyond the first is drawn by a successful SetRandom before the quotients are folded is under contract (a ghost counter checked before the multi-exponentiation), the folded operands of its pairing check are not; BatchOpenSinglePoint: guards (the empty batch is refused: F41) and index safety of the function, of its two goroutines and of the closure handed to parallel.Execute for every batch are under contract (go-as-call, channels-as-log, execute-as-range), the value of the folded polynomial (sum of gamma^i f_i, shorter polynomials padded with zeros) is not; the benchmark branch of NewSRS (trapdoor -1), the MPC setup, serialisation of keys and proofs: not under contract",
 			"Verify does not test subgroup membership of the commitment and of H (the property quantifies over subgroup elements)"}
 		p.Note = "eval is Horner's value of the polynomial; dividePolyByXminusA returns the suffix Horner values (the synthetic-division quotient) and leaves f(a) - fa in f[0]; Commit refuses exactly the empty and the oversized polynomials and otherwise returns the multi-exponentiation of the first len(p) SRS points by p; Open returns ClaimedValue = p(point), never modifies p and succeeds on constant polynomials (H = point at infinity); Verify returns nil only if the pairing check was made on (totalG1Aff, proof.H) with the key's lines and succeeded, with totalG1 = [f(a)]G1 + [-a]H - commitment built by exactly those calls on those operands; fold returns the inner product of evaluations and factors and the multi-exponentiation of the digests; FoldProof refuses mismatched and empty batches, uses the powers 1, gamma, gamma^2, ... of the derived challenge and keeps H; BatchVerifySinglePoint accepts only if folding and verification both accepted; NewSRS refuses sizes below 2 and, for a trapdoor other than -1, hands the batch scalar multiplication of the G1 generator exactly the scalars a, a^2, ..., a^(size-1) (a the field element of the trapdoor) and multiplies the G2 generator by the same trapdoor. deriveGamma (the Fiat-Shamir challenge of the batched single-point opening) binds, in this order and with nothing skipped or repeated, the evaluation point, every digest, every claimed value and every item of the caller's transcript data, each through its own Marshal(), and computes the challenge only then."
 		return p
